@@ -116,6 +116,10 @@ def _run(case, cfg, w):
         for ns in cfg['nss']:
             if w.mode == 'async':
                 async def on_disc(sid, *a, ns=ns):
+                    w.rec.add('h_enter', label=('s', 'func', ns,
+                                                'disconnect'),
+                              args=(sid, 'has-environ' if srv.get_environ(
+                                  sid, ns) is not None else 'no-environ'))
                     try:
                         disc_reads.append((sid, ns, dict(
                             await srv.get_session(sid, namespace=ns))))
@@ -123,6 +127,10 @@ def _run(case, cfg, w):
                         disc_reads.append((sid, ns, e))
             else:
                 def on_disc(sid, *a, ns=ns):
+                    w.rec.add('h_enter', label=('s', 'func', ns,
+                                                'disconnect'),
+                              args=(sid, 'has-environ' if srv.get_environ(
+                                  sid, ns) is not None else 'no-environ'))
                     try:
                         disc_reads.append((sid, ns, dict(
                             srv.get_session(sid, namespace=ns))))
